@@ -36,6 +36,10 @@ R_TEMPLATES = [
     'for $v in 1 to 3 loop a = a + $v; for $v2 in 1 to 2 loop c = $v2; end loop; end loop; print $v;',
     'forall e in $t loop e = e + $v; forall f in $t loop c = f; end loop; end loop; $sx = $sx + "y"; $v = $v + 1;',
     'begin for $v in 3 to 1 desc loop raise oops; end loop; exception when oops then $v = 0; end; $t.concat(4); $t.put(0, $v);',
+    # a type-constrained variable re-typed within what its constraint allows (another element type / dimension), then more statements
+    '$t = tab(3, "x"); $t.concat("y"); print $t.count(); c = c + 1; print c; a = $t.at(0) + "z";',
+    '$t = tab(2, 2.5); $v = 2.5; $sx = str($v); for $v2 in 1 to 2 loop c = c + $v2; end loop; print c $sx;',
+    '$t = tab(1, tab(1, 1)); $t.at(0).concat(2); forall zq in $t loop c = zq.count(); end loop; print c;',
 ]
 
 
@@ -124,6 +128,8 @@ class Sh:
                 self.viol("probe-behaviour", "%s: probe gives %s %r in A but %s %r in the twin, after rejected `...%s`" % (label, oa[0], oa[2][-80:], ob[0], ob[2][-80:], rtext[-80:]), wit); return "v"
         da = parse_dump(rep[10]); db = parse_dump(rep[18])
         for name, sb in db["syms"].items():
+            if name not in d0["syms"]:
+                continue      # a name the prefix did not have: if the rejected text introduced it too, it is outside the guarantee
             sa = da["syms"].get(name)
             if sa is None or re.sub(r"#\d+", "", sa["value"]) != re.sub(r"#\d+", "", sb["value"]) or sa["flags"] != sb["flags"]:
                 self.viol("probe-final-state", "%s: after the probe %s is %s in A, %s in the twin" % (label, name, sa and sa["value"][:50], sb["value"][:50]), wit); return "v"
